@@ -21,22 +21,22 @@ CHECKS["C05"] = dict(cat="exploration", tech="Hypothesis script assembly with se
     text="Scripts of 1-5 calibrated corpus statements joined by every separator/noise variant (semicolons in comments and literals, comment-only statements, tsql no-semicolon mode) must report exactly the generated statements in order and the same tables, edges and column paths as the combination of the statements analysed alone. Sampled (2k quick / 30k thorough scripts).",
     ref="DESIGN.md section 4 C05")
 CHECKS["C07"] = dict(cat="exploration", tech="metamorphic testing: lexer-driven meaning-preserving rewrites of corpus SQL (Hypothesis random edits; thorough: every single-site edit)",
-    text="Each corpus statement (test-suite SQL in its dialect + TPC-DS) is rewritten at token level (whitespace, inserted comments, case of unquoted words, quoting of lower-case identifiers, trailing semicolons) and must give the same tables and column pairs. Quick samples 1-8 random edits per case plus all-sites-at-once; thorough enumerates every single-site rewrite.",
+    text="Each corpus statement (test-suite SQL in its dialect + TPC-DS) is rewritten at token level (whitespace, inserted comments, a comment as the only separator between two words, case of unquoted words, quoting of lower-case identifiers, trailing semicolons) and must give the same tables and column pairs. Quick samples 1-8 random edits per case plus all-sites-at-once; thorough enumerates every single-site rewrite. The legacy analyzer takes part with every ansi corpus statement it supports and with generator statements.",
     ref="DESIGN.md section 4 C07")
-CHECKS["C10"] = dict(cat="exploration", tech="structure-aware mutation fuzzing (Hypothesis) with exception-type oracle and call-site bucketing; silent-mode differential",
-    text="Mutated corpus statements (token delete/duplicate/swap/insert of SQL, quoting and templating metacharacters, cross-over, truncation, bracket nesting) under all 29 dialects must end in a result or a library exception; parser-rejected single statements must be InvalidSyntaxException; silent mode must equal the script without the unsupported statement and warn. Sampled; biased to near-valid SQL. Also about 190 hand-written dialect-specific statement forms under every dialect in every run, and further accessors of the same runner after the first one raised.",
+CHECKS["C10"] = dict(cat="exploration", tech="structure-aware mutation fuzzing (Hypothesis) plus coverage-guided fuzzing (atheris / libFuzzer, 16 campaigns, sqllineage-only instrumentation) with exception-type oracle and call-site bucketing; silent-mode differential",
+    text="Mutated corpus statements (token delete/duplicate/swap/insert of SQL, quoting and templating metacharacters, cross-over, truncation, bracket nesting) under all 29 dialects must end in a result or a library exception; parser-rejected single statements must be InvalidSyntaxException; silent mode must equal the script without the unsupported statement and warn. Sampled; biased to near-valid SQL. Also about 190 hand-written dialect-specific statement forms under every dialect in every run, and further accessors of the same runner after the first one raised. A coverage-guided stream (atheris: raw-text mode with a token dictionary and a structured token-operation mode, empty and seeded corpora, the same oracle inside the target, new escape sites re-checked in a fresh process and minimised by ddmin) adds about 9k executions per quick run and 400k per thorough run.",
     ref="DESIGN.md section 4 C10")
 CHECKS["C11"] = dict(cat="exploration", tech="differential across fresh interpreter processes with different PYTHONHASHSEED + permuted/repeated accessor calls; corpus and Hypothesis-generated set-heavy scripts",
     text="Every corpus case (with its dialect and metadata), TPC-DS script and generated set-heavy script is dumped canonically in separate interpreters under 4 (quick) / 32 (thorough) hash seeds and under permuted, repeated accessor orders; all dumps must be identical (anonymous subquery names canonicalised, exports compared as sets). Sampled inputs; the hash-seed dimension is sampled too.",
     ref="DESIGN.md section 4 C11")
 CHECKS["C12"] = dict(cat="exploration", tech="Hypothesis-generated run histories executed in pristine forked processes against per-run baselines from fresh processes; fault injection through the provider extension point; threaded batches",
-    text="Histories of 2-12 runs (shared default / long-lived / fresh / faulty providers, scripts failing at each position, config scopes, tsql split cache) run in one pristine process; after every run the observation must equal the run's baseline from a fresh process and providers must answer like fresh ones. 16-thread batches are compared with sequential baselines (OS scheduler: weak evidence). Sampled histories. The long-lived provider is reused in both bundled kinds (dict-backed and SQLAlchemy on in-memory sqlite).",
+    text="Histories of 2-12 runs (shared default / long-lived / fresh / faulty providers, scripts failing at each position, config scopes, tsql split cache, silent and strict runs of the same scripts, scripts re-creating tables the provider knows) run in one pristine process; after every run the observation must equal the run's baseline from a fresh process and providers must answer like fresh ones. 16-thread batches are compared with sequential baselines (OS scheduler: weak evidence). Sampled histories. The long-lived provider is reused in both bundled kinds (dict-backed and SQLAlchemy on in-memory sqlite).",
     ref="DESIGN.md section 4 C12")
 CHECKS["C01"] = dict(cat="exploration", tech="grammar-based generation from a typed SQL IR (bounded-exhaustive skeleton product + Hypothesis random statements) against an independent reference table semantics, per accepting dialect, with a parse-shape guard",
     text="Statements are IR values, so the expected source/target tables are known without asking sqllineage; every combination of statement kind x FROM shape x subquery position x nesting (thorough: all, under all 28 dialects that accept it; quick: a seeded fifth under ansi + 2 rotating dialects) plus random statements to depth 2-3 must report exactly the expected tables. Complete within the skeleton bound, sampled beyond. Also: statement styles only some dialects have (TEMPORARY / MATERIALIZED / REPLACE INTO ...) under every accepting dialect, dialect-specific statements (COPY, directory targets, path sources, UPDATE JOIN, partition exchange, quoted multi-part names) as text templates, and probes of subquery positions outside the product (each a listed finding, with controls).",
     ref="DESIGN.md section 4 C01")
 CHECKS["C02"] = dict(cat="exploration", tech="grammar-based generation from a typed SQL IR (bounded-exhaustive skeleton product + Hypothesis random statements) against an independent scope-resolution reference semantics for column dataflow",
-    text="Every combination of select-item kind x scope shape x nesting x set-operation arity x explicit column list (2.4k skeletons; quick: a seeded fifth) and random statements to expression depth 3 must report exactly the (root, target column) pairs the IR's dataflow gives, per accepting dialect. The generator is restricted to where the property determines the answer; known-defect shapes are excluded by construction and replayed from the findings file. Also UPDATE ... FROM / MERGE ... USING statements (FROM shape x assignments x target alias, inner/outer name collisions, several WHEN clauses, expression-valued assignments as finding probes).",
+    text="Every combination of select-item kind x scope shape x nesting x set-operation arity x explicit column list (2.4k skeletons; quick: a seeded fifth) and random statements to expression depth 3 must report exactly the (root, target column) pairs the IR's dataflow gives, per accepting dialect. The generator is restricted to where the property determines the answer; known-defect shapes are excluded by construction and replayed from the findings file. Also UPDATE ... FROM / MERGE ... USING statements (FROM shape x assignments x target alias, inner/outer name collisions, several WHEN clauses, expression-valued assignments as finding probes), and a lateral-column-alias stream (flag on + provider: a select item referencing an earlier alias, 16 expression pairs x 6 ways of naming the target columns).",
     ref="DESIGN.md section 4 C02")
 CHECKS["C06"] = dict(cat="exploration", tech="invariant (validity-predicate) checking over every result of a generated + harvested result pool, through public accessors and the public graph assembler",
     text="Path well-formedness, leaf/root/table-level consistency and combined-graph retrievability/ownership invariants are evaluated on every result of the corpus (own dialect and ansi, with test metadata), TPC-DS and generated scripts. Sampled inputs, invariants complete per result.",
@@ -57,10 +57,10 @@ CHECKS["C08"] = dict(cat="exploration", tech="metamorphic testing on the SQL IR:
     text="Generated statements are compared with their alpha-renamed versions (names from fresh, MixedCase, keyword-like, unused-table and - as a finding probe - used-table pools), with aliases added/removed and with AS toggled; tables and end-to-end column pairs must be identical. Sampled.",
     ref="DESIGN.md section 4 C08")
 CHECKS["C13"] = dict(cat="exploration", tech="bounded-exhaustive knowledge assignments over shape templates + Hypothesis, against the metadata-aware reference semantics; differential with/without provider and between the two bundled providers",
-    text="Every shape template x every known/unknown assignment (with column-overlap patterns) over <=3 scope tables and the target is analysed with and without metadata: table lineage must not change, unknown-only statements must equal the no-provider result, column pairs must equal the metadata-aware reference model, and the dict-backed and SQLAlchemy (in-memory sqlite) providers must agree. Also multi-statement scripts (each template between extra write-only / read-only / DROP / feeding statements) judged on table lineage with and without provider, and known targets whose columns are the select list's names in another order.",
+    text="Every shape template x every known/unknown assignment (with column-overlap patterns) over <=3 scope tables and the target is analysed with and without metadata: table lineage must not change, unknown-only statements must equal the no-provider result, column pairs must equal the metadata-aware reference model, and the dict-backed and SQLAlchemy (in-memory sqlite) providers must agree. Also multi-statement scripts (each template between extra write-only / read-only / DROP / feeding statements) judged on table lineage with and without provider, and known targets whose columns are the select list's names in another order. Every enumerated case is judged again over three-part names (dict-backed provider) and under other dialects (3 rotating in quick, 12 in thorough); explicit column lists that permute a known target's columns must win.",
     ref="DESIGN.md section 4 C13")
 CHECKS["C16"] = dict(cat="exploration", tech="bounded-exhaustive spelling x position x dialect enumeration against a reference normalisation; Hypothesis on the normalisation helper and on equality/hash of model objects",
-    text="Every case pattern x quote style x 1-3 name parts x syntactic position (FROM, target, column, qualifier, alias, INSERT list, CTE name, write-then-read chain) under 7 dialects covering the three quote styles must print the reference-normalised entity and connect chains; the helper must normalise well-formed spellings as specified; equal entities must hash equally.",
+    text="Every case pattern x quote style x 1-3 name parts x syntactic position (FROM, target, column, qualifier, partial qualifier, qualified wildcard, alias, INSERT list, CTE name, write-then-read chains) under 7 dialects covering the three quote styles must print the reference-normalised entity and connect chains; the helper must normalise well-formed spellings as specified; equal entities must hash equally. The listed finding is identified cell-exactly (statement, dialect, discrepancy hash).",
     ref="DESIGN.md section 4 C16")
 NA = {}
 def main():
